@@ -1,7 +1,7 @@
 (* Property C07 — partial lexing commits only items that more input cannot change.
    Only final statements; proofs in Engine/PartialProofs.v. *)
-From Coq Require Import List NArith.
-From LogosV Require Import Engine.Model Engine.Cert Engine.CertProofs Engine.PartialProofs Engine.PromptProofs Engine.StreamProofs.
+From Coq Require Import List NArith FMapPositive.
+From LogosV Require Import Engine.Model Engine.Cert Engine.CertProofs Engine.PartialProofs Engine.PromptProofs Engine.StreamProofs Engine.Prog Engine.StreamProg.
 Import ListNotations.
 Local Open Scope N_scope.
 
@@ -92,3 +92,29 @@ Theorem C07_chunked_is_oneshot : forall d g V R D,
   forall ks, Forall (fun k => (k <= length w)%nat) ks ->
   chunked g act fbw w fbk ks 0 = lex_all (attempt_ref g) act fbw w false.
 Proof. exact chunked_is_oneshot. Qed.
+
+(* The same for the program the code generator emits (parsed from the generated code, checked against the graph by
+   prog_ok): any schedule of growing buffers lexed by the emitted program in partial mode, finished by the emitted
+   program in ordinary mode, gives the one-shot stream of the emitted program. *)
+Theorem C07_emitted_chunked_is_oneshot : forall U g p,
+  prog_ok g p = true -> wf_graph g = true ->
+  forall d V R D, dfa_ok d = true -> sim_ok d g V D = true -> exact_ok d g V R D = true ->
+  forall act fbw fbk (w : list byte), bytes_ok w ->
+  (forall l s e, s < e -> e <= N.of_nat (length w) -> e + snd (act l s e) <= N.of_nat (length w)) ->
+  (forall i, i <= N.of_nat (length w) -> i <= fbw i /\ fbw i <= N.of_nat (length w)) ->
+  (forall k i, i <= N.of_nat k -> fbk k i = fbw i) ->
+  forall ks, Forall (fun k => (k <= length w)%nat) ks ->
+  chunked_with (fun ip s r => fst (attempt_prog U p (PositiveMap.cardinal (g_states g)) ip s r)) act fbw w fbk ks 0
+  = lex_all (fun ip s r => fst (attempt_prog U p (PositiveMap.cardinal (g_states g)) ip s r)) act fbw w false.
+Proof. exact emitted_chunked_is_oneshot. Qed.
+
+(* The converse of promptness: under the strict certificate, a state in which the partial lexer WAITS (it carries the
+   is_prefix test) is one whose item is genuinely open - from some unit successor of the DFA state a match can still be
+   reached (Live), or two successors disagree on the winner.  So the lexer waits only while the item can still change. *)
+Theorem C07_waits_only_if_open : forall d g V R D,
+  dfa_ok d = true -> sim_ok d g V D = true -> exact_ok d g V R D = true ->
+  forall s q st, prompt_strict_ok d g V R = true ->
+  inV V s q = true -> gfind g s = Some st -> partial_mode_test st = true ->
+  Live d (dstep d q UEoi) \/
+  exists b, byte_ok b /\ (Live d (dstep d q (UB b)) \/ win d (dstep d q (UB b)) <> win d (dstep d q UEoi)).
+Proof. exact waits_only_if_open. Qed.
